@@ -50,7 +50,7 @@ theorem core_disconnectTo (rxs : List Rx) (is : List Nat) (r : Nat) (y : Rx)
 theorem RI_frame_core (s s' : St) (hr : s'.regs = s.regs) (hlen : s.rxs.length ≤ s'.rxs.length)
     (hd : dispAlive s' = true → dispAlive s = true)
     (hx : ∀ (r : Nat) (y : Rx), s'.rxs[r]? = some y → y.live = true → ∃ x, s.rxs[r]? = some x ∧ SameCore x y)
-    (h : RI s) : RI s' := by
+    {P : Prop} (h : RI P s) : RI P s' := by
   apply RI_frame s s' hr hlen hd _ h
   intro r y hy hl
   obtain ⟨x, hx1, c1, c2, c3, c4, _, _⟩ := hx r y hy hl
@@ -98,7 +98,7 @@ theorem dispAlive_of_txLive (s : St) (h : Nat) (x : Tx) (hx : txLive s h = some 
   exact ⟨x, List.mem_of_getElem? h1, h2⟩
 
 /-- `sClose` as seen by the routing invariant -/
-theorem RI_sClose (s : St) (h : Nat) (hri : RI s) : RI (sClose s h).1 := by
+theorem RI_sClose (s : St) (h : Nat) {P : Prop} (hri : RI P s) : RI P (sClose s h).1 := by
   unfold sClose
   split
   · exact hri
@@ -113,12 +113,13 @@ theorem RI_sClose (s : St) (h : Nat) (hri : RI s) : RI (sClose s h).1 := by
         simp only [senderCloseInternal] at hy
         exact core_disconnectTo _ _ r y hy
 
-theorem RI_recvWith (s : St) (r : Nat) (x : Rx) (d e : Res) (hri : RI s) : RI (recvWith s r x d e).1 := by
+theorem RI_recvWith (s : St) (r : Nat) (x : Rx) (d e : Res) {P : Prop} (hri : RI P s) : RI P (recvWith s r x d e).1 := by
   unfold recvWith
   split
-  · refine RI_frame_core s _ ?_ ?_ (fun h => h) ?_ hri
+  · refine RI_frame_core s _ ?_ ?_ ?_ ?_ hri
     · rfl
     · simp [length_modAt]
+    · exact fun h => h
     intro q y hy _
     refine core_modAt _ _ _ ?_ q y hy
     intro x; exact ⟨rfl, rfl, rfl, rfl, rfl, rfl⟩
@@ -142,8 +143,27 @@ theorem rxCloseInternal_rxs_ne (s : St) (r q : Nat) (hq : r ≠ q) : (rxCloseInt
     · simp [getElem?_modAt_ne _ _ _ _ hq]
     · rfl
 
+/-- entries after a receiver's `close_internal`: unchanged or `subs := []` -/
+theorem rel_rxCloseInternal' (R : Rx → Rx → Prop) (hr : ∀ x, R x x) (hs : ∀ x, R x { x with subs := [] })
+    (s : St) (q : Nat) (r : Nat) (y : Rx) (hy : (rxCloseInternal s q).rxs[r]? = some y) :
+    ∃ x, s.rxs[r]? = some x ∧ R x y := by
+  cases hx : s.rxs[q]? with
+  | none => rw [rxCloseInternal_none s q hx] at hy; exact ⟨y, hy, hr y⟩
+  | some x =>
+    rw [rxCloseInternal_eq s q x hx] at hy
+    split at hy
+    · simp only [] at hy
+      rw [getElem?_modAt] at hy
+      by_cases h : q = r
+      · simp only [h, if_true] at hy
+        cases hl : s.rxs[r]? with
+        | none => simp [hl] at hy
+        | some z => simp only [hl, Option.map_some, Option.some.injEq] at hy; subst hy; exact ⟨z, rfl, hs z⟩
+      · simp only [h, if_false] at hy; exact ⟨y, hy, hr y⟩
+    · exact ⟨y, hy, hr y⟩
+
 theorem RI_foldl_subscribeCore (l : List Topic) (s : St) (n : Nat) (x0 : Rx) (hx0 : s.rxs[n]? = some x0)
-    (hl0 : x0.live = true) (h : RI s) : RI (l.foldl (fun s t => subscribeCore s n t) s) := by
+    (hl0 : x0.live = true) {P : Prop} (h : RI P s) : RI P (l.foldl (fun s t => subscribeCore s n t) s) := by
   induction l generalizing s x0 with
   | nil => exact h
   | cons t l ih =>
@@ -154,16 +174,60 @@ theorem RI_foldl_subscribeCore (l : List Topic) (s : St) (n : Nat) (x0 : Rx) (hx
     · exact ih _ x0 (by rw [he]; exact hx0) hl0 h1
     · exact ih _ { x0 with subs := x0.subs ++ [t] } (by rw [he, getElem?_modAt_self, hx0]; rfl) hl0 h1
 
-theorem RI_step (s : St) (op : Op) (hop : ∀ r, op ≠ .rClose r) (hri : RI s) : RI (step s op).1 := by
+/-- for arbitrary histories (`¬P`): only "no dispatcher ⇒ dispatcher dead" and "own subscription
+⇒ registered" are claimed, so an operation may also shrink a subscription set or set `closed` -/
+theorem RI_weak_frame (s s' : St) (hr : s'.regs = s.regs) (hlen : s.rxs.length ≤ s'.rxs.length)
+    (hd : dispAlive s' = true → dispAlive s = true)
+    (hx : ∀ (r : Nat) (y : Rx), s'.rxs[r]? = some y → y.live = true →
+      ∃ x, s.rxs[r]? = some x ∧ x.live = true ∧ y.hasDisp = x.hasDisp ∧ ∀ t, t ∈ y.subs → t ∈ x.subs)
+    {P : Prop} (hP : ¬ P) (h : RI P s) : RI P s' := by
+  refine ⟨fun t r hm => Nat.lt_of_lt_of_le (h.inRange t r (hr ▸ hm)) hlen, ?_⟩
+  intro r y hy hl
+  obtain ⟨x, hx1, hxl, hxd, hxs⟩ := hx r y hy hl
+  obtain ⟨a, _, _, d⟩ := h.ok r x hx1 hxl
+  refine ⟨?_, fun h' => absurd h' hP, fun h' => absurd h' hP, ?_⟩
+  · intro h1
+    cases hda : dispAlive s' with
+    | false => rfl
+    | true => rw [hxd] at h1; rw [a h1] at hd; exact absurd (hd hda) (by simp)
+  · intro h1 h2 t ht; rw [hr]; rw [hxd] at h1; exact d h1 (hd h2) t (hxs t ht)
+
+theorem RI_step (s : St) (op : Op) {P : Prop} (hop : P → ∀ r, op ≠ .rClose r) (hri : RI P s) : RI P (step s op).1 := by
   cases op with
-  | rClose r => exact absurd rfl (hop r)
+  | rClose r =>
+    by_cases hP : P
+    · exact absurd rfl (hop hP r)
+    · simp only [step, rClose]; split
+      · exact hri
+      · split
+        · exact hri
+        · refine RI_weak_frame s _ ?_ ?_ ?_ ?_ hP hri
+          · rw [regs_rxCloseInternal]
+          · rw [rxCloseInternal_length]; simp [length_modAt]
+          · rw [dispAlive_congr _ _ (rxCloseInternal_txs _ r)]; exact id
+          · intro q y hy hl
+            obtain ⟨x1, hx1, hc1⟩ := rel_rxCloseInternal'
+              (fun x y => y.live = x.live ∧ y.hasDisp = x.hasDisp ∧ ∀ t, t ∈ y.subs → t ∈ x.subs)
+              (fun _ => ⟨rfl, rfl, fun _ h => h⟩) (fun _ => ⟨rfl, rfl, fun _ h => by simp at h⟩) _ r q y hy
+            rw [getElem?_modAt] at hx1
+            by_cases hq : r = q
+            · subst hq
+              simp only [if_true] at hx1
+              cases h0 : s.rxs[r]? with
+              | none => simp [h0] at hx1
+              | some z =>
+                simp only [h0, Option.map_some, Option.some.injEq] at hx1; subst hx1
+                exact ⟨z, rfl, by rw [← hc1.1]; exact hl, hc1.2.1, hc1.2.2⟩
+            · simp only [hq, if_false] at hx1
+              exact ⟨x1, hx1, by rw [← hc1.1]; exact hl, hc1.2.1, hc1.2.2⟩
   | send h t v =>
     simp only [step]
     rcases send_cases s h t v with ⟨x, _, _, _, he⟩ | ⟨h1, _⟩
     · rw [he]
-      refine RI_frame_core s _ ?_ ?_ (fun h => h) ?_ hri
+      refine RI_frame_core s _ ?_ ?_ ?_ ?_ hri
       · rfl
       · simp [length_deliverTo]
+      · exact fun h => h
       intro r y hy _; exact core_deliverTo _ _ _ r y hy
     · rw [h1]; exact hri
   | sClone h =>
@@ -227,8 +291,8 @@ theorem RI_step (s : St) (op : Op) (hop : ∀ r, op ≠ .rClose r) (hri : RI s) 
           subst hq'
           simp only [List.getElem?_concat_length, Option.some.injEq] at hy
           subst hy
-          refine ⟨fun h1 => by simp [freshRx] at h1, fun _ => rfl, ?_, fun _ _ t ht => by simp [freshRx] at ht⟩
-          intro _ t ht
+          refine ⟨fun h1 => by simp [freshRx] at h1, fun _ _ => rfl, ?_, fun _ _ t ht => by simp [freshRx] at ht⟩
+          intro _ _ t ht
           have := hri.inRange t _ ht; omega
       · -- dead clone
         rename_i hu
@@ -250,8 +314,8 @@ theorem RI_step (s : St) (op : Op) (hop : ∀ r, op ≠ .rClose r) (hri : RI s) 
           subst hq'
           simp only [List.getElem?_concat_length, Option.some.injEq] at hy
           subst hy
-          refine ⟨fun _ => hda, fun h1 => by simp [deadRx] at h1, ?_, fun h1 => by simp [deadRx] at h1⟩
-          intro h2; have h3 : dispAlive s = true := h2; rw [hda] at h3; cases h3
+          refine ⟨fun _ => hda, fun _ h1 => by simp [deadRx] at h1, ?_, fun h1 => by simp [deadRx] at h1⟩
+          intro _ h2; have h3 : dispAlive s = true := h2; rw [hda] at h3; cases h3
   | rDrop r =>
     simp only [step, rDrop]; split
     · exact hri
@@ -259,9 +323,10 @@ theorem RI_step (s : St) (op : Op) (hop : ∀ r, op ≠ .rClose r) (hri : RI s) 
       -- whatever the close part did, regs/txs are unchanged and only entry `r` changed; `r` ends dead
       have key : ∀ s1 : St, s1.regs = s.regs → s1.txs = s.txs → s1.rxs.length = s.rxs.length →
           (∀ q, r ≠ q → s1.rxs[q]? = s.rxs[q]?) →
-          RI { s1 with rxs := modAt s1.rxs r (fun x => { x with live := false, disc := true }) } := by
+          RI P { s1 with rxs := modAt s1.rxs r (fun x => { x with live := false, disc := true }) } := by
         intro s1 hr ht hlen hne
-        refine RI_frame_core s _ hr ?_ ?_ ?_ hri
+        refine RI_frame_core s _ ?_ ?_ ?_ ?_ hri
+        · exact hr
         · simp [length_modAt, hlen]
         · simp only [dispAlive, ht]; exact id
         intro q y hy hl
@@ -289,9 +354,10 @@ theorem RI_step (s : St) (op : Op) (hop : ∀ r, op ≠ .rClose r) (hri : RI s) 
   | rConv r =>
     simp only [step, rConv]; split
     · exact hri
-    · refine RI_frame s _ ?_ ?_ (fun h => h) ?_ hri
+    · refine RI_frame s _ ?_ ?_ ?_ ?_ hri
       · rfl
       · simp [length_modAt]
+      · exact fun h => h
       intro q y hy hl
       rw [getElem?_modAt] at hy
       by_cases hq : r = q
@@ -328,14 +394,14 @@ theorem RI_step (s : St) (op : Op) (hop : ∀ r, op ≠ .rClose r) (hri : RI s) 
   | isEmpty r => simp only [step, isEmpty]; split <;> exact hri
   | capacity r => simp only [step, capacity]; split <;> exact hri
 
-theorem RI_init (cap : Nat) (k : Kind) : RI (init cap k) := by
+theorem RI_init (cap : Nat) (k : Kind) (P : Prop) : RI P (init cap k) := by
   refine ⟨by simp [init], ?_⟩
   intro r x hx _
   cases r with
   | zero =>
     simp only [init, List.getElem?_cons_zero, Option.some.injEq] at hx
     subst hx
-    exact ⟨fun h => by simp at h, fun _ => rfl, fun _ t ht => by simp [init] at ht, fun _ _ t ht => by simp at ht⟩
+    exact ⟨fun h => by simp at h, fun _ _ => rfl, fun _ _ t ht => by simp [init] at ht, fun _ _ t ht => by simp at ht⟩
   | succ n => simp [init] at hx
 
 end Fv.Chan.Topic
